@@ -142,6 +142,40 @@ def run(ctx):
         ok = "raise_errors" in facts and bool(truthy_texts("errors") & facts) and "raise_errors" not in rfacts
     ctx.check("C10.R2", "validate_many: collected errors re-raised when asked, else all(results)", ok, vm.where(), f"validate_many: {[norm(r.value) for r in rets]}", "validate_many must raise the collected errors when raise_errors is set and otherwise return the conjunction")
 
+    # ---- R8 the python types each validator accepts ---------------------------------------------------------------
+    ctx.rule("C10.R8", "each type validator accepts exactly the python types of the documented mapping (isinstance sets read off the accepting paths)", floor=8)
+    for kind, (pos_want, neg_want) in sorted(VALIDATOR_TYPES.items()):
+        if kind not in V.entries:
+            continue
+        f = V.funcs(kind)[0]
+        dn = f.pos_params[0]
+        pos, neg = set(), set()
+        seen = False
+        for s in summaries(cfg_of(f), max_paths=400):
+            if s.kind != "return" or s.expr is None or (isinstance(s.expr, ast.Constant) and not s.expr.value):
+                continue
+            conj = list(s.expr.values) if isinstance(s.expr, ast.BoolOp) and isinstance(s.expr.op, ast.And) else [s.expr]
+            for fct in s.facts:
+                try:
+                    conj.append(ast.parse(fct, mode="eval").body)
+                except SyntaxError:
+                    pass
+            for c in conj:
+                negated = isinstance(c, ast.UnaryOp) and isinstance(c.op, ast.Not)
+                call = c.operand if negated else c
+                if isinstance(call, ast.Call) and isinstance(call.func, ast.Name) and call.func.id == "isinstance" and len(call.args) == 2 and norm(call.args[0]) == dn:
+                    seen = True
+                    ts = {norm(e) for e in (call.args[1].elts if isinstance(call.args[1], ast.Tuple) else [call.args[1]])}
+                    (neg if negated else pos).update(ts)
+        inst = f"VALIDATORS[{kind}] -> {f.qualname}: accepts instances of {sorted(pos_want)}" + (f" except {sorted(neg_want)}" if neg_want else "")
+        if not seen:
+            ctx.unrecognised("C10.R8", inst, f.where(), "no isinstance test of the datum on an accepting path")
+            continue
+        # int is a numbers.Integral, float / int are numbers.Real: the abstract class alone says the same
+        norm_set = lambda s_: {x for x in s_ if not (x == "int" and "numbers.Integral" in s_) and not (x in ("int", "float") and "numbers.Real" in s_)}
+        ok = norm_set(pos) == norm_set(pos_want) and neg >= neg_want and not (neg - neg_want - {"bool"})
+        ctx.check("C10.R8", inst, ok, f.where(), f"{f.qualname}: isinstance of {sorted(pos)} and not of {sorted(neg)}", "validate accepts (or rejects) python types other than the documented ones: the writers, which index, measure and iterate these values, fail on what validate accepted, or validate rejects what they write")
+
     # ---- R3 gate before bytes -------------------------------------------------------------------
     ctx.rule("C10.R3", "Writer.write / JSONWriter.write: the validating call (raise_errors=True) dominates the encoding call when the gate is on; the gate is installed unconditionally", floor=3)
     for cid in ("_write_py:Writer", "_write_py:JSONWriter"):
@@ -259,6 +293,21 @@ def expected_writer_cell(s, sa_, d, n_):
     if not d and not n_:
         return True
     return False
+
+
+# the documented Python mapping (property text; fastavro documentation "validation"): accepted / excluded classes
+VALIDATOR_TYPES = {
+    "boolean": ({"bool"}, set()),
+    "string": ({"str"}, set()),
+    "bytes": ({"bytes", "bytearray"}, set()),
+    "int": ({"int", "numbers.Integral"}, {"bool"}),
+    "long": ({"int", "numbers.Integral"}, {"bool"}),
+    "float": ({"int", "float", "numbers.Real"}, {"bool"}),
+    "fixed": ({"bytes"}, set()),
+    "array": ({"Sequence", "array.array"}, {"str"}),
+    "map": ({"Mapping"}, set()),
+    "record": ({"Mapping"}, set()),
+}
 
 
 def conjunction_of_verdicts(f, cfg, rets, vcalls):
